@@ -347,7 +347,7 @@ fn text_oracle(c: &TextCase, rec: &Rec) -> R {
 pub fn checks() -> Vec<CheckDef> {
     let mut v = checks_structured();
     #[cfg(feature = "full")]
-    v.push(super::fuzzstage::check("C15", "decode_patched", "libfuzzer-decode-patched", 40_000));
+    v.push(super::fuzzstage::check("C15", "decode_patched", "libfuzzer-decode-patched", 150_000));
     v
 }
 
@@ -373,7 +373,7 @@ fn checks_structured() -> Vec<CheckDef> {
             "decoded-keys-behave",
             "generated (N, key, message, seed): a key pair / public key decoded from its encoding signs identically under identical randomness and verifies the same signatures as the original (library and reference); distinct by case",
             &[],
-            (120, 4000),
+            (120, 12_000),
             beh_strategy,
             beh_oracle,
         ),
